@@ -16,7 +16,7 @@ US = 1_000_000
 SB, EB, CR = b'\x0b', b'\x1c', b'\x0d'
 
 TIERS = {
-    'quick': {'runs': 24000, 'budget_s': 75, 'batch': 100},
+    'quick': {'runs': 24000, 'budget_s': 240, 'batch': 100},
     'thorough': {'runs': 400000, 'budget_s': 900, 'batch': 200},
 }
 
